@@ -107,7 +107,7 @@ def daemon_replay(rep, bfile, props, what, chunk=600, procs=8):
         files.append(p)
     t0 = time.time()
     with ThreadPoolExecutor(max_workers=procs) as ex:
-        parts = list(ex.map(lambda p: djson(["replay", p]), files))
+        parts = list(ex.map(lambda p: djson(["replay", p, "--stop-on", ",".join(sorted(props))]), files))
     import shutil
     shutil.rmtree(cdir, ignore_errors=True)
     res = {"behaviours": 0, "steps": 0, "comparisons": 0, "violations": [], "drifts": []}
